@@ -262,6 +262,32 @@ fn check_state(
         }
         unsafe { llg_free_matcher(m2) };
     }
+    // batches through llg_matcher_consume_tokens on clones: [t, EOS], [t, u], [EOS, t], [t, EOS, t] for a few
+    // successors t, u (a batch is not the same as single commits: the stop check runs at other points)
+    if !r_stopped {
+        let eos = env.ctok.eos;
+        let mut batches: Vec<Vec<u32>> = vec![vec![eos], vec![eos, eos]];
+        for t in succ.iter().copied().filter(|t| *t != eos).take(3) {
+            batches.push(vec![t, eos]);
+            batches.push(vec![eos, t]);
+            batches.push(vec![t, eos, t]);
+            for u in succ.iter().copied().take(2) {
+                batches.push(vec![t, u]);
+            }
+        }
+        for b in batches {
+            let m2 = unsafe { llg_clone_matcher(&*cm) };
+            let mut r2 = rm.deep_clone();
+            let c = unsafe { llg_matcher_consume_tokens(&mut *m2, b.as_ptr(), b.len()) };
+            let r = r2.consume_tokens(&b);
+            ctx.count("consume_tokens_batches", 1);
+            let same = (c == 0) == r.is_ok() && unsafe { llg_matcher_is_stopped(&*m2) } == r2.is_stopped() && unsafe { llg_matcher_is_error(&*m2) } == r2.is_error() && unsafe { llg_matcher_is_accepting(&mut *m2) } == r2.is_accepting().unwrap_or(false);
+            unsafe { llg_free_matcher(m2) };
+            if !same {
+                return Err(v("matcher_consume_tokens_batch", "ffi-result-differs", json!({"batch": b, "c_code": c, "rust_ok": r.is_ok(), "rust_stopped": r2.is_stopped(), "rust_error": r2.is_error()})));
+            }
+        }
+    }
     // ---- llg_par_compute_mask on clones, every destination length
     let max_bytes = 2 * words * 4 + 8;
     for with_cb in [false, true] {
